@@ -11,7 +11,7 @@ import zlib
 
 from . import alu
 
-TOKEN_RE = re.compile(r'HASH\("[^"]*"\)|STR\("[^"]*"\)|#|\S+?(?=\s|#|$)')
+TOKEN_RE = re.compile(r"""HASH\("[^"]*"\)|STR\("[^"]*"\)|HASH\('[^']*'\)|STR\('[^']*'\)|#|\S+?(?=\s|#|$)""")
 NUM_RE = re.compile(r"^[-+]?(\d+\.?\d*|\.\d+)([eE][-+]?\d+)?$")
 REG_RE = re.compile(r"^r(\d+)$")
 DEV_RE = re.compile(r"^d([0-5]|b)$")
@@ -124,9 +124,9 @@ class Machine:
         if c is not None:
             return c
         v = None
-        if t.startswith('HASH("') and t.endswith('")'):
+        if (t.startswith('HASH("') and t.endswith('")')) or (t.startswith("HASH('") and t.endswith("')")):
             v = crc(t[6:-2])
-        elif t.startswith('STR("') and t.endswith('")'):
+        elif (t.startswith('STR("') and t.endswith('")')) or (t.startswith("STR('") and t.endswith("')")):
             v = strpack(t[5:-2])
         elif t.startswith("$"):
             try:
